@@ -154,5 +154,13 @@ def check(ctx):
     n = grd_empty(ctx, [sort, rank, uniq], "accept empty and entirely missing vectors",
                   only=lambda f: f.module.name == "dataiter.vector")
     ctx.count("partial-operation sites", n, 1)
+    from ..guards import nonempty
+    cc = repo.fn(f"{VEC}.concat")
+    for f_, c_ in calls_in(cc):
+        if repo.dotted(f_, c_.func) == "numpy.concatenate" and c_.args:
+            ok_, why_ = nonempty(repo, f_, c_.args[0], c_)
+            ctx.ob("GRD-empty", cc, norm(c_), c_, ok_, f"np.concatenate receives at least one array: {why_}" if ok_ else
+                   f"np.concatenate may receive an empty list ({why_}): it raises ValueError, so sort / unique fail on a length-0 vector",
+                   clause="accept empty and entirely missing vectors")
     w = grd_width(ctx, [sort, rank, uniq], "accept empty and entirely missing vectors")
     ctx.count("fixed-width cast sites", w, 1)
